@@ -305,6 +305,8 @@ where
 #[derive(Clone, Debug, Default)]
 pub struct Monitors {
     pub property: &'static str,
+    /// queue names table (index = queue id in ops); None = default a, b, zz, f
+    pub names: Option<Vec<String>>,
     pub policy: Option<PolicyCfg>,
     pub hash_seed: u64,
     /// outcome / state divergence from the model is a violation of this property
@@ -330,6 +332,7 @@ pub fn leaf_case(leaf: &Leaf, mon: &Monitors) -> serde_json::Value {
         "engine": "seq",
         "policy": mon.policy.unwrap_or(PolicyCfg::Default),
         "hash_seed": mon.hash_seed,
+        "long_names": mon.names.is_some(),
         "seed_name": leaf.seed.name,
         "seed_ops": leaf.seed.ops,
         "ops": leaf.ops,
@@ -460,7 +463,8 @@ fn run_leaf_inner(
 ) -> Result<(), Fail> {
     let policy = mon.policy.unwrap_or(PolicyCfg::Default);
     let trace = mon.trace || mon.c06 || mon.c13 || mon.c15;
-    let mut run = Run::start(dir, policy, mon.hash_seed, trace, default_names())
+    let names = mon.names.clone().unwrap_or_else(default_names);
+    let mut run = Run::start(dir, policy, mon.hash_seed, trace, names.clone())
         .map_err(|e| ("open-failed".to_string(), e))?;
     let mut fa = FileAttr {
         attr: BTreeMap::new(),
@@ -831,7 +835,8 @@ fn run_leaf_inner(
             }
         }
         if mon.accessors && heavy {
-            match check_accessors(run.subject.log(), &run.model, &["zz", "a", "b"]) {
+            let missing: Vec<&str> = names.iter().map(|n| n.as_str()).collect();
+            match check_accessors(run.subject.log(), &run.model, &missing) {
                 Ok(owned) => stats.count("ring_wrapped_reads", owned),
                 Err(e) => return fail("accessor-mismatch", format!("step {} {}: {}", i, op.short(), e)),
             }
@@ -1306,4 +1311,99 @@ fn c17_inner(stats: &mut Stats, dir: &std::path::Path, target: &std::path::Path,
         }
     }
     Ok(())
+}
+
+
+// ---------------------------------------------------------------------------------------------
+// machinery self-checks (never verdicts)
+
+fn traced_run(dir: &std::path::Path, ops: &[&Op], hash_seed: u64) -> Option<(Vec<Vec<Event>>, Vec<Outcome>, BTreeMap<String, Vec<u8>>, Option<(u64, usize)>)> {
+    guarded(|| {
+        let mut run = Run::start(dir, PolicyCfg::Default, hash_seed, true, default_names()).ok()?;
+        let mut evs = vec![std::mem::take(&mut run.open_events)];
+        let mut outs = vec![];
+        let mut cursor: Option<(u64, usize)> = Some((0, 0));
+        for op in ops {
+            let rec = run.step(op);
+            for e in &rec.events {
+                if let Event::BlockWrite { file_number, offset, len, .. } = e {
+                    cursor = Some((*file_number, offset + len));
+                }
+            }
+            evs.push(rec.events);
+            outs.push(rec.got);
+        }
+        // the directory's own name differs between scratch directories
+        for e in evs.iter_mut().flatten() {
+            match e {
+                Event::Open { name, is_dir: true, .. } | Event::SyncData { name, is_dir: true } => *name = ".".into(),
+                _ => {}
+            }
+        }
+        drop(run);
+        Some((evs, outs, read_image(dir), cursor))
+    })
+    .ok()
+    .flatten()
+}
+
+/// Runs the first leaves of each profile twice (same thread-local seeds) and requires identical
+/// I/O traces, outcomes and final directory images; compares the seeds' predicted cursors with
+/// the measured ones; runs the same leaves on the real file system and requires the same traces
+/// and images as on the in-memory directory.
+pub fn self_checks(profiles: &[Profile], part: &mut Part) {
+    let mut env = Env::new();
+    let real = Scratch::with_mode(false);
+    let mut det_runs = 0u64;
+    let mut vfs_runs = 0u64;
+    let mut cursor_ok = 0u64;
+    let mut cursor_total = 0u64;
+    for p in profiles {
+        for seed in &p.seeds {
+            // the seed alone: cursor prediction
+            env.scratch.reset();
+            let ops: Vec<&Op> = seed.ops.iter().collect();
+            if let Some((_, _, _, cur)) = traced_run(&env.scratch.path, &ops, 0) {
+                if let (Some(pred), Some((f, o))) = (seed.predicted_cursor, cur) {
+                    cursor_total += 1;
+                    if pred as u64 == f * FILE as u64 + o as u64 {
+                        cursor_ok += 1;
+                    }
+                }
+            }
+            for (k, first) in p.alphabet.iter().enumerate().take(12) {
+                let second = &p.alphabet[(k * 7 + 3) % p.alphabet.len()];
+                let mut ops: Vec<&Op> = seed.ops.iter().collect();
+                ops.push(first);
+                ops.push(second);
+                env.scratch.reset();
+                let a = traced_run(&env.scratch.path, &ops, 0);
+                env.scratch.reset();
+                let b = traced_run(&env.scratch.path, &ops, 0);
+                det_runs += 1;
+                if a != b {
+                    part.machinery_errors.push(format!("determinism self-check failed: seed {} + {} + {} gave different traces on re-execution", seed.name, first.short(), second.short()));
+                    return;
+                }
+                if k < 4 && env.scratch.vfs {
+                    real.reset();
+                    let c = traced_run(&real.path, &ops, 0);
+                    vfs_runs += 1;
+                    if a != c {
+                        part.machinery_errors.push(format!("in-memory directory does not behave like the real file system: seed {} + {} + {}", seed.name, first.short(), second.short()));
+                        return;
+                    }
+                }
+            }
+        }
+    }
+    let prev = part.extra.get("self_checks").cloned().unwrap_or(json!({}));
+    let g = |k: &str| prev.get(k).and_then(|v| v.as_u64()).unwrap_or(0);
+    part.extra.insert(
+        "self_checks".into(),
+        json!({"histories_re_executed_with_identical_io_traces_outcomes_and_images": det_runs + g("histories_re_executed_with_identical_io_traces_outcomes_and_images"),
+               "histories_with_identical_traces_on_in_memory_and_real_fs": vfs_runs + g("histories_with_identical_traces_on_in_memory_and_real_fs"),
+               "seed_cursor_predictions_ok": cursor_ok + g("seed_cursor_predictions_ok"),
+               "seed_cursor_predictions_total": cursor_total + g("seed_cursor_predictions_total")}),
+    );
 }
